@@ -565,6 +565,39 @@ def _mutable_global(project: Project, dotted: str) -> bool:
     return False
 
 
+def _mutable_display(project, m, e) -> bool:
+    if isinstance(e, (ast.Dict, ast.List, ast.Set, ast.DictComp, ast.ListComp, ast.SetComp)):
+        return True
+    if isinstance(e, ast.Call):
+        t = project.resolve(m, e.func, ())
+        return t in ("builtins.dict", "builtins.list", "builtins.set", "collections.OrderedDict", "collections.defaultdict",
+                     "numpy.array", "numpy.zeros", "numpy.ones", "numpy.empty", "numpy.full", "builtins.bytearray")
+    return False
+
+
+def _mutable_entry(project: Project, dotted: str, fi, attr: str):
+    """`self.<attr>` of `fi` may hold an ENTRY of the module-level table `dotted` (a dict display with constant keys).  Returns the
+    key when the entry that is taken is known (a constant key on the way from the table to the attribute) and is itself a
+    mutable container; None when the entry is immutable or which entry it is cannot be told"""
+    modname, _, gname = dotted.rpartition(".")
+    m = project.modules.get(modname)
+    e = m.globals.get(gname) if m is not None else None
+    if not isinstance(e, ast.Dict) or not all(isinstance(k, ast.Constant) for k in e.keys):
+        return None
+    table = {k.value: v for k, v in zip(e.keys, e.values)}
+    # constants on the way: the right-hand side of the attribute store, and of the local names it mentions
+    rhs = [x.value for x in ast.walk(fi.node) if isinstance(x, ast.Assign) and any(
+        isinstance(t, ast.Attribute) and t.attr == attr for t in x.targets)]
+    names = {n.id for r in rhs for n in ast.walk(r) if isinstance(n, ast.Name)}
+    rhs += [x.value for x in ast.walk(fi.node) if isinstance(x, ast.Assign) and any(
+        isinstance(t, ast.Name) and t.id in names for t in x.targets)]
+    keys = {c.value for r in rhs for c in ast.walk(r) if isinstance(c, ast.Constant) and isinstance(c.value, str) and c.value in table}
+    if len(keys) != 1:
+        return None
+    k = next(iter(keys))
+    return k if _mutable_display(project, m, table[k]) else None
+
+
 def _flag_call_info(project, ev):
     """(owner FunctionInfo, function node, the .setflags call, its `write` value node or None)"""
     owner = project.functions.get(ev.func)
@@ -710,6 +743,17 @@ def check_pu_share(project: Project, oa, rep, eps, rule="PU-SHARE"):
                                     f"the others and the default of every later construction",
                                     construct=f"{fi.qualname}: {me}.{attr} aliases {g.root[7:]}")
                         n_flag += 1
+                    elif g.root.startswith("global:") and g.path == ("*",):
+                        key = _mutable_entry(project, g.root[7:], fi, attr)
+                        if key is not None:
+                            node = next((x for x in ast.walk(fi.node) if isinstance(x, ast.Assign) and any(
+                                isinstance(t, ast.Attribute) and t.attr == attr for t in x.targets)), fi.node)
+                            rep.refuted(rule, fi, node,
+                                        f"{fi.qualname} stores the entry `{key}` of the module-level table `{g.root[7:]}` itself in "
+                                        f"`{me}.{attr}` (a mutable container, not a copy): every object built this way shares it, so an "
+                                        f"in-place edit through one of them changes the others and the default of every later construction",
+                                        construct=f"{fi.qualname}: {me}.{attr} aliases {g.root[7:]}[{key!r}]")
+                            n_flag += 1
         if s.ret is not None and fi.cls is None:
             for g in sorted(s.ret.is_, key=str):
                 if g.root.startswith("global:") and not g.path and _mutable_global(project, g.root[7:]):
@@ -752,6 +796,10 @@ def _positive_examples(rep):
     sh = [x for x in scratch.refutations if x["rule"] == "PU-SHARE"]
     if not any("SharesDefaults" in x["function"] for x in sh):
         raise AnalysisError("positive example: PU-SHARE did not flag SharesDefaults.__init__")
+    if not any("SharesTableEntry" in x["function"] for x in sh):
+        raise AnalysisError("positive example: PU-SHARE did not flag SharesTableEntry.__init__ (an entry of a module-level table)")
+    if any("CopiesTableEntry" in x["function"] for x in sh) or any("size" in x["construct"] for x in sh):
+        raise AnalysisError("positive example: PU-SHARE flagged the clean twin CopiesTableEntry / an immutable entry")
     if any("CopiesDefaults" in x["function"] for x in sh):
         raise AnalysisError("positive example: PU-SHARE flagged the clean twin CopiesDefaults")
     want = {"PU-ARGS": 5, "PU-CAPT": 2, "PU-STATE": 5, "PU-RNG": 1, "PU-PLT": 1, "PU-DTYPE": 2, "PU-INTARITH": 5, "PU-SHARE": 1}
